@@ -8,10 +8,13 @@ import (
 	"fmt"
 	"os"
 	"path/filepath"
+	"runtime"
 	"sort"
 	"strconv"
 	"strings"
+	"sync"
 	"testing"
+	"time"
 
 	"pgregory.net/rapid"
 )
@@ -156,7 +159,59 @@ func JudgeCase(c *Case, cfg *Config) Verdict {
 	if !ok {
 		return Verdict{Violation: "no judge registered for " + c.Property + "/" + c.Sub}
 	}
+	watched.Lock()
+	watched.c, watched.since = c, time.Now()
+	watched.Unlock()
+	defer func() {
+		watched.Lock()
+		watched.c = nil
+		watched.Unlock()
+	}()
 	return j(c, cfg)
+}
+
+// Watchdog: a case whose judgement does not finish. Only checks whose cases are bounded by construction start
+// one (the reference evaluation of the same program ran within a step limit first, budgets are set, sizes
+// clamped): for them a library call that does not return within a limit several orders of magnitude above the
+// normal time of a case is a violation ("returns ..."), not an inconclusive run. A goroutine cannot be stopped,
+// so the case is saved and the process ends.
+var watched struct {
+	sync.Mutex
+	c     *Case
+	since time.Time
+	on    bool
+}
+
+func StartWatchdog(rec *Recorder, limit time.Duration, why string, memLimit ...uint64) {
+	watched.Lock()
+	started := watched.on
+	watched.on = true
+	watched.Unlock()
+	if started {
+		return
+	}
+	go func() {
+		for {
+			time.Sleep(2 * time.Second)
+			watched.Lock()
+			c, since := watched.c, watched.since
+			watched.Unlock()
+			if c != nil && time.Since(since) > limit {
+				rec.SaveFailure(c, fmt.Sprintf("the case did not finish within %v (%s)", limit, why))
+				rec.Flush()
+				os.Exit(1)
+			}
+			if c != nil && len(memLimit) > 0 && time.Since(since) > 4*time.Second {
+				var ms runtime.MemStats
+				runtime.ReadMemStats(&ms)
+				if ms.Sys > memLimit[0] {
+					rec.SaveFailure(c, fmt.Sprintf("the process holds %d MB while this case is evaluated (%s)", ms.Sys>>20, why))
+					rec.Flush()
+					os.Exit(1)
+				}
+			}
+		}
+	}()
 }
 
 // ---------------------------------------------------------------------------------------------
